@@ -26,7 +26,9 @@ import (
 //        a FRESH BucketStore (cold caches) of the configuration answers the requests in order: cache histories
 //        -> the answers of st.series joined by ` | `
 //   cfg: l<0|1> lazy expanded postings, b<n> series batch size, s<n> index-header posting offsets sampling,
-//        c<0|1|2> no / roomy / tiny (evicting) in-memory index cache, g<n> partitioner max gap
+//        c<0|1|2> no / roomy / tiny (evicting) in-memory index cache, g<n> partitioner max gap,
+//        m<n> estimated max series size (0 = default 64 KiB; 1 and 24 make lazy expansion kick in and series be
+//        re-fetched), k<n> estimated max chunk size (0 = default; 1 and 20 make chunks be re-fetched)
 //   part.gap <maxGap> <start:end,…>             the real gapBasedPartitioner -> parts `start:end:i:j,…`
 //
 // oracle (st.series / st.hist, store gateway only): the same blocks read with tsdb.OpenBlock + NewBlockChunkQuerier
@@ -169,6 +171,9 @@ func (r *stReq) checkAgainstReader(c *hlib.Ctx, frames []frame, skip bool) {
 	}
 }
 
+// last seen values of the path counters, per store instance
+var c10Counters = map[string]float64{}
+
 // answers of other configurations for the same (blocks, request), within one run
 var c10Seen = map[string]string{}
 
@@ -194,6 +199,15 @@ func execC10Series(c *hlib.Ctx, r *stReq, skip bool, fresh bool) string {
 	}
 	if r.kind == "bkt" {
 		r.checkAgainstReader(c, srv.frames, skip)
+		if cfg, err := parseBucketCfg(r.cfgTok); err == nil {
+			for _, m := range []string{"thanos_bucket_store_lazy_expanded_postings_total", "thanos_bucket_store_series_refetches_total", "thanos_bucket_store_chunk_refetches_total"} {
+				k := cfg.storeKey() + m
+				if v := r.b.storeCounter(cfg, m); v > c10Counters[k] {
+					c10Counters[k] = v
+					c.Count("path:" + strings.TrimSuffix(strings.TrimPrefix(m, "thanos_bucket_store_"), "_total"))
+				}
+			}
+		}
 	}
 	return "ok " + canonSeries(srv.frames, skip)
 }
@@ -252,6 +266,8 @@ func execC10(c *hlib.Ctx, tok []string) string {
 			answers = append(answers, execC10Series(c, r, f[4] == "1", true))
 		}
 		return strings.Join(answers, " | ")
+	case "pg.groups":
+		return execPgGroups(c, tok)
 	case "part.gap":
 		if len(tok) != 3 {
 			return "bad-op"
@@ -297,8 +313,10 @@ func execC10(c *hlib.Ctx, tok []string) string {
 	return "bad-op"
 }
 
+// genC10Cfg draws one of a dozen configurations per dataset (every configuration is a BucketStore instance).
 func genC10Cfg(r *hlib.Rand) string {
-	return fmt.Sprintf("bkt+l%d+b%d+s%d+c%d+g%d", r.Intn(2), pickInt(r, 1, 3, 10000), pickInt(r, 1, 3, 32), r.Intn(3), pickInt(r, 0, 16, 512*1024))
+	return fmt.Sprintf("bkt+l%d+b%d+s%d+c%d+g%d+m%d+k%d", r.Intn(2), pickInt(r, 1, 3, 10000), pickInt(r, 1, 3, 32), r.Intn(3), pickInt(r, 0, 16, 512*1024),
+		pickInt(r, 0, 1, 24, 512), pickInt(r, 0, 1, 20))
 }
 
 func genC10(c *hlib.Ctx) {
@@ -326,8 +344,10 @@ func genC10(c *hlib.Ctx) {
 		c.Count(fmt.Sprintf("part:ranges-%s", bucketCount(k)))
 		c.Do(fmt.Sprintf("part.gap %d %s", pickInt(r, 0, 1, 5, 16, 100), hlib.Join(rs, ",")), k > 0)
 	}
+	// ---- posting groups
+	genPgGroups(c, c.N(3000, 150000))
 	// ---- stores
-	nStores, nReq := c.N(14, 400), c.N(14, 30)
+	nStores, nReq := c.N(14, 250), c.N(14, 30)
 	for i := 0; i < nStores; i++ {
 		g := &storeGen{r: r, storedPool: []int{1, 2, 4, 5, 7, 9, 11}, extPool: []int{5, 6, 9, 11}}
 		blocks := g.genBlocks(r.Range(1, 3), pickInt(r, 4, 12, 40), 1)
@@ -336,6 +356,13 @@ func genC10(c *hlib.Ctx) {
 			c.Count("st:series-in-two-blocks")
 		}
 		tb := showBlocks(blocks)
+		var cfgs, lazyCfgs []string
+		for k := 0; k < 8; k++ {
+			cfgs = append(cfgs, genC10Cfg(r))
+		}
+		for k := 0; k < 3; k++ {
+			lazyCfgs = append(lazyCfgs, fmt.Sprintf("bkt+l1+b%d+s%d+c%d+g%d+m%d+k%d", pickInt(r, 1, 3, 10000), pickInt(r, 1, 3, 32), r.Intn(3), pickInt(r, 0, 16), pickInt(r, 1, 1, 24), pickInt(r, 0, 20)))
+		}
 		for q := 0; q < nReq; q++ {
 			ms := g.genMatchers(blocks)
 			mint, maxt := genRange(r, blocks)
@@ -356,9 +383,19 @@ func genC10(c *hlib.Ctx) {
 					c.Count("matcher:matches-empty")
 				}
 			}
-			// the same request under three configurations, the second one twice (warm cache)
+			// a third of the requests are made for lazy posting expansion: selectors on two or three different stored
+			// labels with values that occur, asked under configurations with lazy expansion on and a tiny series size estimate
+			lazyProne := r.Chance(1, 3)
+			if lazyProne {
+				ms = g.genLazyProneMatchers(blocks)
+				c.Count("st:lazy-prone-request")
+			}
+			// the same request under three of the dataset's configurations, the second one twice (warm cache)
 			for k := 0; k < 3; k++ {
-				cfg := genC10Cfg(r)
+				cfg := cfgs[r.Intn(len(cfgs))]
+				if lazyProne && k < 2 {
+					cfg = lazyCfgs[r.Intn(len(lazyCfgs))]
+				}
 				line := fmt.Sprintf("st.series %s %s %d %d %s %s %d", cfg, tb, mint, maxt, showMatchers(ms), without, sk)
 				ans := c.Do(line, true)
 				c.Count("st:answer-" + answerKind(ans))
@@ -373,7 +410,7 @@ func genC10(c *hlib.Ctx) {
 					return fmt.Sprintf("%d~%d~%s~%s~%d", a, b, showMatchers(ms), without, sk)
 				}
 				c.Count("st:history")
-				c.Do(fmt.Sprintf("st.hist %s %s %s!%s!%s!%s", genC10Cfg(r)[:0]+fmt.Sprintf("bkt+l%d+b%d+s%d+c%d", r.Intn(2), pickInt(r, 1, 3, 10000), pickInt(r, 1, 3, 32), r.Range(1, 2)),
+				c.Do(fmt.Sprintf("st.hist %s %s %s!%s!%s!%s", fmt.Sprintf("bkt+l%d+b%d+s%d+c%d+m%d", r.Intn(2), pickInt(r, 1, 3, 10000), pickInt(r, 1, 3, 32), r.Range(1, 2), pickInt(r, 0, 1, 24)),
 					tb, rq(ms, mint, maxt), rq(ms2, mint, maxt), rq(ms, mint, maxt), rq(ms, mint+1, maxt)), true)
 			}
 		}
@@ -392,4 +429,51 @@ func addSeriesOnce(b *specBlock, s specSeries) bool {
 	}
 	b.series = append(b.series, s)
 	return true
+}
+
+// genLazyProneMatchers: two or three selectors on different stored label names, each with at least one posting.
+func (g *storeGen) genLazyProneMatchers(blocks []specBlock) []specMatcher {
+	r := g.r
+	present := map[int][]int{}
+	for _, b := range blocks {
+		for _, s := range b.series {
+			for _, l := range s.lset {
+				present[l.n] = append(present[l.n], l.v)
+			}
+		}
+	}
+	var names []int
+	for n := range present {
+		names = append(names, n)
+	}
+	sort.Ints(names)
+	p := r.Perm(len(names))
+	var out []specMatcher
+	for i := 0; i < len(names) && len(out) < r.Range(2, 3); i++ {
+		name := names[p[i]]
+		vs := present[name]
+		var typ int
+		var pat string
+		switch r.Intn(5) {
+		case 0:
+			typ, pat = 1, "" // != ""
+		case 1:
+			typ, pat = 2, ".+"
+		case 2:
+			typ, pat = 1, valueTab[vs[r.Intn(len(vs))]]
+		case 3:
+			typ, pat = 2, valueTab[vs[r.Intn(len(vs))]]+"|"+valueTab[vs[r.Intn(len(vs))]]
+			if strings.ContainsAny(pat, ".") {
+				typ, pat = 0, valueTab[vs[r.Intn(len(vs))]]
+			}
+		default:
+			typ, pat = 0, valueTab[vs[r.Intn(len(vs))]]
+		}
+		m, err := mkMatcher(typ, name, pat)
+		if err != nil {
+			continue
+		}
+		out = append(out, specMatcher{typ, name, pat, matcherVals(m)})
+	}
+	return out
 }
